@@ -81,7 +81,7 @@ func selfValidate(p *Property, repo, verif string) []map[string]interface{} {
 			p.Run(c)
 			var fresh []string
 			for _, o := range c.Obs {
-				if !o.OK && !kk[normKey(o.Key)] && !(o.AltKey != "" && kk[o.AltKey]) {
+				if !o.OK && !o.Recog && !kk[normKey(o.Key)] && !(o.AltKey != "" && kk[o.AltKey]) {
 					fresh = append(fresh, o.Key)
 				}
 			}
